@@ -271,9 +271,52 @@ def ts_cases():
     return [("ts", fi, vi) for fi in range(len(fields)) for vi in range(len(TS_STRINGS) + 3)]
 
 
+TYPED_BASE = {"StartAt": "T", "TimeoutSeconds": 600, "Comment": "c", "Version": "1.0", "States": {
+    "T": {"Type": "Task", "Resource": "arn:aws:rpcmessage:local::function:f", "TimeoutSeconds": 5, "HeartbeatSeconds": 2,
+          "InputPath": "$", "OutputPath": "$", "ResultPath": "$.r", "Parameters": {"a.$": "$.x"}, "ResultSelector": {"b.$": "$"},
+          "Retry": [{"ErrorEquals": ["E.A"], "IntervalSeconds": 2, "MaxAttempts": 3, "BackoffRate": 1.5}],
+          "Catch": [{"ErrorEquals": ["States.ALL"], "ResultPath": "$.e", "Next": "M"}], "Next": "M"},
+    "M": {"Type": "Map", "ItemsPath": "$.items", "MaxConcurrency": 2, "ItemSelector": {"v.$": "$$.Map.Item.Value"},
+          "ItemProcessor": {"StartAt": "W", "States": {"W": {"Type": "Wait", "Seconds": 1, "End": True}}},
+          "Retry": [{"ErrorEquals": ["States.ALL"], "MaxAttempts": 1}], "Next": "P"},
+    "P": {"Type": "Parallel", "Branches": [{"StartAt": "X", "States": {"X": {"Type": "Pass", "Result": 1, "End": True}}}],
+          "Next": "C"},
+    "C": {"Type": "Choice", "Choices": [{"Variable": "$.n", "NumericEquals": 1, "Next": "S"}], "Default": "F"},
+    "S": {"Type": "Succeed"}, "F": {"Type": "Fail", "Error": "E", "Cause": "c"}}}
+TYPED_VALUES = ["text", "", None, [1], [], {"a": 1}, {}, True, 1.5, -1, 0]
+
+
+def run_typed(k, extra):
+    """The validator alone: every field of a machine that uses every state type (and Retry / Catch) x every JSON type
+    in its place - it must report problems (return a list), never raise."""
+    fields = [p for p, v in paths(TYPED_BASE) if p]
+    findings = []
+    n = 0
+    for p in fields[k::8]:
+        for v in TYPED_VALUES:
+            m = copy.deepcopy(TYPED_BASE)
+            get(m, p[:-1])[p[-1]] = v
+            n += 1
+            problems, crash = validate(m)
+            if crash:
+                findings.append({"property": PROP, "rule": "validator-raised", "witness": crash.split(":")[0],
+                                 "detail": "StateLint.validate raised/returned %s for %s = %r" % (crash, "/".join(map(str, p)), v),
+                                 "seed": k, "typed": [list(p), v]})
+                break
+    return {"evaluations": n, "probes": {"validator-only:typed-wrong-fields": n}, "findings": findings[:3],
+            "distinct": [common.sha(["typed", k])]}
+
+
 def run_one(i, extra):
+    if isinstance(i, tuple) and i[0] == "typed":
+        return run_typed(i[1], extra)
     probe = None
     forced = None
+    whole = None
+    if isinstance(i, tuple) and i[0] == "corpus":
+        # every corpus machine as it is: the validator accepts it and it runs without "Illegal State Machine"
+        whole = i[1]
+        i = 6000 + sorted(corpus.CORPUS).index(whole)
     if isinstance(i, tuple) and i[0] == "probe":
         probe = i[1]
         i = 0
@@ -294,6 +337,12 @@ def run_one(i, extra):
         mutant = forced
         kind = "timestamp-field"
         script, functions, inp = {}, [], {"when": "2023-11-14T22:13:20Z"}
+    elif whole is not None:
+        c = corpus.CORPUS[whole]
+        mutant, script, inp = copy.deepcopy(c["definition"]), dict(c["script"]), c["input"]
+        kind = "none"
+        functions = sorted(script)
+        probes["corpus-machine-unmutated"] = 1
     elif probe is not None:
         mutant, script, inp = copy.deepcopy(PROBES[probe])
         kind = "probe"
@@ -468,6 +517,8 @@ def run_one(i, extra):
     for f in findings:
         f.setdefault("seed", seed)
         f["mutant"] = mutant
+        if whole is not None:
+            f["whole"] = whole
         if probe is not None:
             f["probe"] = probe
         if ts_item is not None:
@@ -483,7 +534,15 @@ def main(argv):
         with open(argv[1]) as f:
             rec = json.load(f)
         i = rec["seed"] - common.base_seed() * 1000003
-        if rec.get("probe"):
+        if rec.get("typed"):
+            m = copy.deepcopy(TYPED_BASE)
+            get(m, rec["typed"][0][:-1])[rec["typed"][0][-1]] = rec["typed"][1]
+            problems, crash = validate(m)
+            print("replay %s: %s" % (argv[1], "REPRODUCED" if crash else "not reproduced"))
+            return 1 if crash else 0
+        if rec.get("whole"):
+            i = ("corpus", rec["whole"])
+        elif rec.get("probe"):
             i = ("probe", rec["probe"])
         elif rec.get("ts"):
             i = ("ts", rec["ts"][0], rec["ts"][1])
@@ -494,7 +553,8 @@ def main(argv):
     tier = common.tier()
     n = 1500 if tier == "quick" else 60000
     rep = common.Report(PROP)
-    items = [("probe", k) for k in sorted(PROBES)] + ts_cases() + list(range(n))
+    items = [("probe", k) for k in sorted(PROBES)] + [("typed", k) for k in range(8)] + ts_cases() + \
+        [("corpus", nm) for nm in sorted(corpus.CORPUS) if not corpus.CORPUS[nm].get("machines")] + list(range(n))
     for r in common.run_batch("checks.c18", "run_one", items, {}):
         rep.absorb(r)
     return rep.finish(
